@@ -50,7 +50,34 @@ type tstate struct {
 
 type inst struct {
 	st [8]tstate
+	// what the threads last told the package-level defaults of randz (which the library makes
+	// safe for concurrent use: atomically swapped generators, a locked random source); read
+	// and written through shared(), which the race detector does not instrument, so that the
+	// bookkeeping neither reports nor hides anything
+	defStart int64 // UnixNano of the start time last given to SetIdGeneratorStartTime, 0 = the package's own
+	defSet   int   // index of the character set last given to SetStrGeneratorCharSet, -1 = the package's own
 }
+
+//go:norace
+func (x *inst) shared(start *int64, set *int, write bool) {
+	if write {
+		if start != nil {
+			x.defStart = *start
+		}
+		if set != nil {
+			x.defSet = *set
+		}
+		return
+	}
+	if start != nil {
+		*start = x.defStart
+	}
+	if set != nil {
+		*set = x.defSet
+	}
+}
+
+var defSets = []string{randz.CHAR_SET, "abcdef", "xyz0123456789", "αβγδε", "ab\xffc"}
 
 type src struct{ r *sim.Rng }
 
@@ -257,7 +284,53 @@ func (x *inst) Do(t int, op sim.Op) sim.Rec {
 			st.cg = &randz.CountGenerator{}
 			st.cg.AddRule(100+t, 10, 5, 3)
 		}
-		switch op.K % 4 {
+		switch op.K % 6 {
+		case 4:
+			// the package-level defaults, shared by all threads: Id() and String() while another
+			// thread may have just replaced the generator behind them
+			if op.V%3 == 0 {
+				start := time.Now().Add(-time.Duration(1+rng.N(1<<20)) * time.Second).Truncate(time.Millisecond).Add(time.Duration(rng.N(1000)) * time.Microsecond)
+				ns := start.UnixNano()
+				x.shared(&ns, nil, true)
+				randz.SetIdGeneratorStartTime(start)
+			}
+			before := time.Now()
+			id := randz.Id()
+			after := time.Now()
+			var ns int64
+			x.shared(&ns, nil, false)
+			start := time.Date(2023, 2, 27, 0, 30, 0, 0, time.UTC)
+			if ns != 0 {
+				start = time.Unix(0, ns)
+			}
+			ms := int64(id) >> 18
+			if lo, hi := before.Sub(start).Milliseconds()-1, after.Sub(start).Milliseconds()+1; id < 0 || ms < lo || ms > hi {
+				fail("Id() = %d carries %d ms; the start time last set (by some thread, in a call that had returned) is %v, %d..%d ms ago", id, ms, start.UTC(), lo, hi)
+			}
+		case 5:
+			if op.V%3 == 0 {
+				k := rng.N(len(defSets))
+				x.shared(nil, &k, true)
+				randz.SetStrGeneratorCharSet(defSets[k])
+			}
+			n := rng.N(40)
+			str := randz.String(n)
+			var k int
+			x.shared(nil, &k, false)
+			set := map[rune]bool{}
+			for _, c := range defSets[k] {
+				set[c] = true
+			}
+			cnt := 0
+			for _, c := range str {
+				cnt++
+				if !set[c] {
+					fail("String(%d): %q is not in the character set last set (%q)", n, c, defSets[k])
+				}
+			}
+			if cnt != n {
+				fail("String(%d) returned %d runes", n, cnt)
+			}
 		case 0:
 			for i := 0; i < 20; i++ {
 				if id := st.idg.Generate(); id < 0 {
@@ -326,7 +399,14 @@ func gen(r *sim.Rng, tier string) *sim.Case {
 	return c
 }
 
-func build(c *sim.Case) enga.Instance { return &inst{} }
+func build(c *sim.Case) enga.Instance {
+	if prop == "C20" {
+		// the package-level defaults outlive a run: back to the package's own
+		randz.SetIdGeneratorStartTime(time.Date(2023, 2, 27, 0, 30, 0, 0, time.UTC))
+		randz.SetStrGeneratorCharSet(randz.CHAR_SET)
+	}
+	return &inst{}
+}
 
 func check(run *enga.Run) *sim.Violation {
 	site := map[string]string{"C02": "listz.(*SkipList)", "C03": "setz.(*RoaringBitmap)", "C09": "cryptz", "C18": "algz", "C20": "randz"}[prop]
